@@ -17,6 +17,7 @@ carry the same numeric track ids as the library's own tracks and must never be c
 "added to a crate" means.)
 -/
 import Proofs.V2MembersQueries
+import Proofs.V2ForestQueries
 import Proofs.V2Run
 
 namespace EngineModel.Properties.C08V2
@@ -97,10 +98,10 @@ theorem C08V2_remove_absent_noop (d : Db) (c t : Int) (h : peFind d c t 0 = none
 /-- crate::remove_track removes the library's OWN entry for the track, never an entry of another database that
 shares the numeric track id (fixed in /repo 9a475eb: the lookup ignored the database uuid): the removed row has
 uuid tag 0, and every foreign entry of the playlist is still listed afterwards, in its place. -/
-theorem C08V2_remove_track_spares_foreign_entries {S : Ord} {d : Db} (h : ChInv S d) (c t : Int) :
+theorem C08V2_remove_track_spares_foreign_entries {S : Ord} {d : Db} (h : ChInv S d) (hP : PlInv d) (c t : Int) :
     ∃ rows, qEntities (step d (.removeTrackFrom c t)).1 c = .ok rows ∧
       rows = ((S.ents c).filter (fun p => !(p.2.track == t && p.2.uuid == 0))).map (fun p => (p.1, p.2.track, p.2.uuid)) := by
-  have hI' := chInv_step h (.removeTrackFrom c t) rfl
+  have hI' := chInv_step h hP (.removeTrackFrom c t) rfl
   refine ⟨_, qEntities_eq hI' c, ?_⟩
   congr 1
   cases hg : peFind d c t 0 with
@@ -153,7 +154,8 @@ crate and of its whole subtree. -/
 theorem C08V2_removal_erases (ops : List Db.V2.Op) (hm : ops.all memOp = true) :
     let d := run Db.empty ops
     (∀ t, t ∈ qAllTracks d → ∀ c, (c, t) ∉ (absM (step d (.removeTrack t)).1).pairs) ∧
-    (∀ c, qValid d c = true → ∀ x t, (x = c ∨ x ∈ qDescendants d c) → (x, t) ∉ (absM (step d (.removeCrate c)).1).pairs) := by
+    (∀ c, qValid d c = true → ∀ x t, (x = c ∨ ∃ l, qDescendants d c = .ok l ∧ x ∈ l) →
+      (x, t) ∉ (absM (step d (.removeCrate c)).1).pairs) := by
   intro d
   obtain ⟨_, _, hI, _⟩ := inv_hist ops hm
   constructor
@@ -174,17 +176,18 @@ theorem C08V2_removal_erases (ops : List Db.V2.Op) (hm : ops.all memOp = true) :
     have hlive := (hI'.mem.live (core r) (mem_cores.mpr ⟨r, hr, rfl⟩) hu).1
     simp only [core] at hlive
     rw [hk] at hlive
-    have hn : (ids d.pl).Nodup := hI.ch.rk.ids_nodup
-    have hstep : step d (.removeCrate c) = (plRemove d c, .ok none) := by
-      simp [Db.V2.step, show plExists d c = true from hc]
-    rw [hstep] at hlive
-    have habs := absF_plRemove hn hI.ch.rk.id_pos (plExists_iff.mp hc)
+    have habs := absF_removeCrate hI.pl (c := c) (by rw [← qValid_eq]; exact hc)
     rw [← absF_ids, habs] at hlive
     obtain ⟨y, hy, e⟩ := Forest.Forest.mem_ids.mp hlive
     obtain ⟨_, h2, h3⟩ := Forest.mem_removeSubtree.mp hy
-    rcases hx with rfl | hx
+    rcases hx with rfl | ⟨l, h1, hxl⟩
     · exact h2 e
-    · rw [e, (mem_descendantIds.mp hx).2] at h3; exact absurd h3 (by simp)
+    · obtain ⟨l', h1', h2'⟩ := qDescendants_eq hI.pl.wf c
+      rw [h1] at h1'
+      simp only [Res.ok.injEq] at h1'
+      subst h1'
+      have hxd : x ∈ descSet d c := (h2' x).mp hxl
+      rw [e, (mem_descSet.mp hxd).2] at h3; exact absurd h3 (by simp)
 
 /-! ### non-vacuity: ids of crates, tracks and entity rows all differ; a foreign entry shares a track id -/
 
